@@ -338,6 +338,41 @@ def public(case):
     return {k: v for k, v in case.items() if not k.startswith("_")}
 
 
+def sampler_problem_stage(ctx):
+    """`sampler.problem` of the real samplers vs `AuxM.Prob.sampler` of the model content (with the user constraints); returns sampling cases on
+    the models where they differ."""
+    import random
+    import auxcorr
+    rng = random.Random(f"aux-C16-{ctx.seed}-{ctx.attempt}")
+    stats, broken, errors, mism = {}, [], {}, []
+    n = ctx.scale(60, 800)
+    for _ in range(n):
+        case = gen_model_case(rng, ctx.tier)
+        case["aux_before_last"] = False
+        try:
+            with warnings.catch_warnings():
+                warnings.simplefilter("ignore")
+                m = build(case)
+                extra = [{"name": f"extra_c16_{i}", "lb": "-inf" if e["lb"] is None else e["lb"], "ub": "inf" if e["ub"] is None else e["ub"],
+                          "co": e["coefs"]} for i, e in enumerate(case["extra"])]
+                pair = auxcorr.sampler_pair(m, extra, case["method"])
+            if auxcorr.compare_sampler([pair], f"{case['method']} sampler problem", stats, broken, case=public(case)):
+                mism.append(case)
+        except (ValueError, RuntimeError) as e:
+            k = f"{type(e).__name__}: {str(e)[:50]}"
+            errors[k] = errors.get(k, 0) + 1
+    ctx.broken += broken
+    ctx.coverage["sampler_problem_correspondence"] = {
+        "compared": stats, "models": n, "refused_by_the_sampler": errors, "mismatches": len(mism),
+        "rule": "equalities with right-hand sides, inequalities with bounds (as multisets of rows), variable bounds, fixed flags and the homogeneous flag of "
+                "sampler.problem vs AuxM.Prob.sampler on the Lean-built problem of the model content plus user constraints (exact rationals)"}
+    out = []
+    for c in mism[:6]:
+        for via in ("object", "sample"):
+            out.append(dict(c, via=via, fluxes=True, second="sample", processes=1))
+    return out
+
+
 def run(ctx):
     if getattr(ctx, "replay", None):
         data = json.loads(open(ctx.replay).read())
@@ -349,11 +384,13 @@ def run(ctx):
                 print(f"VIOLATION property=C16 replay={ctx.replay}")
                 return 1
         return 0
-    common.proof_stage(ctx, "CobraModel.Props.C16", extra_scan=["CobraModel/Model/Sampling.lean"])
+    import auxcorr
+    common.proof_stage(ctx, "CobraModel.Props.C16", extra_scan=["CobraModel/Model/Sampling.lean"] + auxcorr.SCAN)
+    directed = sampler_problem_stage(ctx)
     rng = ctx.rng
     ok, acc, ret = step_correspondence(ctx, rng, ctx.scale(1500, 30000))
     n = ctx.scale(450, 8000)
-    cases = list(common.load_corpus("C16")) + [gen_model_case(rng, ctx.tier) for _ in range(n)]
+    cases = directed + list(common.load_corpus("C16")) + [gen_model_case(rng, ctx.tier) for _ in range(n)]
     ran = 0
     kinds, skipped = {}, {}
     distinct = set()
